@@ -435,6 +435,8 @@ func runC01(c *Ctx) {
 	checkOffsetStores(c, "R9", nil)
 	checkWriteToEndsAtEOF(c, "R10")
 	checkSourceErrorsReturned(c, "R11")
+	// R12: the count equals the bytes moved — not when the chunk offsets wrapped (shared with C12.R10)
+	c.withRule("R12", func() { checkChunkOffsetsCannotWrap(c, "R10") })
 }
 
 // checkPoolDiscipline: chunks travel between the goroutines of a transfer in pooled buffers.  pool.Put(b) makes b
